@@ -55,6 +55,11 @@ def serial_variants():
                       [{"op": "configure"}, {"op": "read_card"}]):
             out.append({"start": "disconnected", "calls": calls, "plan": {"exchanges": [], "handshake": [], "default": ok},
                         "config": {"serial": serial}})
+    # serial numbers that are no hexadecimal numbers, differing in one character
+    for cfg_serial, term_serial in (("PT-00017", "PT-00018"), ("PT-00017", "PT-00017"), ("ZZZZZZZZ", "YYYYYYYY"), ("1234567G", "1234567H")):
+        for calls in ([{"op": "read_card"}, {"op": "begin", "token": [97], "amount": []}], [{"op": "configure"}, {"op": "read_card"}]):
+            out.append({"start": "disconnected", "calls": calls, "term": {"serial": term_serial},
+                        "plan": {"exchanges": [], "handshake": [], "default": ok}, "config": {"serial": cfg_serial}})
     return out
 
 
